@@ -57,8 +57,70 @@ func (e *env) feed(b []byte, uid []byte, what string) {
 	}
 }
 
+// listener sends datagrams to the real IP listener (loopback socket, real provider whose key is
+// 32 zero bytes under the scripted crypto/rand): reply / no reply and reply length must be what the
+// model of the branch says, and the listener must still answer a plain request afterwards.
+func listener(c *lib.Ctx, r *lib.Rand) {
+	if a, _ := ntsx.Guarded("lsn.probe"); a != "ok" {
+		c.NotExecuted("real IP listener on loopback (sockets unavailable in this environment: " + a + ")")
+		return
+	}
+	zero := make([]byte, 32)
+	e := &env{c: c, r: r, s: ntsx.NewSession(r), key: zero, keys: map[int][]byte{1: zero}}
+	e.ck = ntsx.IssueCookie(c, r, e.s, zero, 1)
+	hdr := ntsx.Header(r)
+	uid := r.Bytes(32)
+	cookieF := ntsx.RawField(0x204, e.ck)
+	phF := ntsx.RawField(0x304, make([]byte, len(e.ck)))
+	send := func(b []byte, what string) {
+		op := fmt.Sprintf("lsn.send %s keys=[1:%s] cur=1:%s", lib.Hex(b), lib.Hex(zero), lib.Hex(zero))
+		ans := ntsx.Do(c, op)
+		c.Count("listener:" + strings.Fields(ans)[0])
+		if ans == "dead" || ans == "hang" || strings.HasPrefix(ans, "disagree") || strings.HasPrefix(ans, "bad-provider") {
+			c.Fail("listener:"+strings.Fields(ans)[0], "real IP listener: "+what+": "+ans, []string{op}, map[string]any{"answer": ans})
+		}
+	}
+	mk := func(u []byte, fields ...[]byte) []byte {
+		fs := append([][]byte{ntsx.RawField(0x104, u)}, fields...)
+		return ntsx.ForeignPacket(hdr, fs, e.s.C2S, r.Bytes(16), nil)
+	}
+	good := mk(uid, cookieF, phF)
+	send(good, "well-formed request")
+	for _, n := range []int{0, 28, 31, 33, 700, 804, 808, 1000} {
+		send(mk(r.Bytes(n), cookieF), fmt.Sprintf("%d-byte unique identifier", n))
+	}
+	for _, n := range []int{5, 6, 7, 12} {
+		fs := [][]byte{cookieF}
+		for i := 0; i < n; i++ {
+			fs = append(fs, phF)
+		}
+		send(mk(uid, fs...), fmt.Sprintf("%d placeholders", n))
+	}
+	send(append(append([]byte(nil), hdr...), append([]byte{3, 4, 0, 0}, make([]byte, 24)...)...), "zero-length extension field")
+	send(append(append([]byte(nil), hdr...), append([]byte{2, 4, 0, 0}, make([]byte, 24)...)...), "zero-length cookie field")
+	send(mk(uid, ntsx.RawField(0x204, e.ck[:len(e.ck)-1])), "cookie cut short")
+	send(mk(uid, ntsx.RawField(0x204, []byte{4, 1, 0, 2, 0, 1, 5, 1, 0xff, 0xff, 1, 2, 3, 4, 5, 6, 7, 8, 9, 10, 11, 12, 13, 14})), "cookie TLV beyond buffer")
+	if f := strings.Fields(ntsx.Do(c, "ec.dec "+lib.Hex(e.ck))); len(f) == 4 && f[0] == "ok" {
+		for _, nl := range []int{0, 15, 17} {
+			if m, ok := ntsx.OkHex(ntsx.Do(c, fmt.Sprintf("ec.enc %s %s %s", f[1], lib.Hex(r.Bytes(nl)), f[3]))); ok {
+				send(mk(uid, ntsx.RawField(0x204, m)), fmt.Sprintf("cookie with a %d-byte nonce", nl))
+			}
+		}
+	}
+	for _, n := range []int{0, 15, 17} {
+		send(ntsx.ForeignPacket(hdr, [][]byte{ntsx.RawField(0x104, uid), cookieF}, e.s.C2S, r.Bytes(n), nil), fmt.Sprintf("%d-byte authenticator nonce", n))
+	}
+	send(ntsx.ForeignPacket(hdr, [][]byte{ntsx.RawField(0x104, uid), cookieF}, e.s.C2S, r.Bytes(16), append([]byte{2, 4, 0, 0}, make([]byte, 28)...)), "zero-length encrypted field")
+	ms := ntsx.FieldMutants(good, r)
+	for i := 0; i < c.Scale(12, 150); i++ {
+		m := ms[r.Intn(len(ms))]
+		send(m.B, "mutated request ("+m.Kind+")")
+	}
+}
+
 func gen(c *lib.Ctx) {
 	r := c.Rand
+	listener(c, c.Rand.Fork("listener"))
 	for si := 0; si < c.Scale(3, 25); si++ {
 		e := &env{c: c, r: r, s: ntsx.NewSession(r), key: r.Bytes(32)}
 		e.keys = map[int][]byte{1: e.key}
